@@ -291,12 +291,13 @@ def numeric_cadzow(ctx, rnd, nrnd, fullrank, n_id, n_noise):
                 if ok and not p_same(out, P, 1e-9):
                     ctx.violation("cadzow:plane-wave-identity", f"cadzow.denoise of one plane wave on a {nx}x{ny} grid at rank {r} "
                                   f"changes its input by {np.max(np.abs(out - P)):.3g}", dict(sc, case="plane", rank=r))
-    # noise reduction below full rank: well-posed scenarios (regular grid with >= 12 rows, rank = number of waves)
-    shapes = [(nx, ny) for nx in range(1, 5) for ny in range(12, 41)]
+    # noise reduction below full rank: well-posed scenarios (regular grid with >= 16 rows, rank = number of waves; measured
+    # error ratio <= 0.6 over 8 seeds, required < 1)
+    shapes = [(nx, ny) for nx in range(1, 5) for ny in range(16, 41)]
     rnd.shuffle(shapes)
     for nx, ny in shapes[:n_noise]:
         cells, x, y = layout_coords(grid_cells(nx, ny, False), rnd)
-        nw = rnd.choice([1, 2])
+        nw = 1 if nx == 1 else rnd.choice([1, 2])
         if nw >= fullrank[nx - 1][ny - 1]:
             continue
         S = plane_waves(x, y, 4, nrnd, nw)
@@ -334,7 +335,7 @@ def numeric_svd(ctx, rnd, nrnd, n):
                               f"changes its input by {np.max(np.abs(out - D)):.3g}", {"kind": "svd"})
         # low-rank signal + noise, requested rank = rank of the signal
         k = rnd.choice([1, 2, 3])
-        if ns >= 4 * k and nc >= 4 * k:
+        if ns > nc >= 8 * k:
             S = nrnd.standard_normal((nc, k)) @ nrnd.standard_normal((k, ns))
             Nz = 0.2 * nrnd.standard_normal((nc, ns))
             ok, out = real(ctx, "svd:noise-reduced", f"svd_denoise_npx({nc}x{ns}, rank={k})", {"kind": "svd"}, voltage.svd_denoise_npx, S + Nz, rank=k)
@@ -539,7 +540,7 @@ def run(ctx):
     ctx.assumptions += ["every sorter has at least one spike; spike samples are sorted non-negative integers",
                         "plane-wave identity demanded on regular full grids (the code documents regularly spaced coordinates)",
                         "smooth.lp pad in (0, 1]; rolling_window with odd window lengths; savgol window < number of points",
-                        "noise-reduction scenarios: rank = number of plane waves / rank of the signal, noise 20-30 %"]
+                        "noise-reduction scenarios: regular grids with >= 16 rows resp. matrices with ns > nc >= 8 x rank; requested rank = number of plane waves / rank of the signal; noise 20-30 % (measured error ratio <= 0.6, required < 1)"]
 
 
 def stack_numeric(ctx, c, data, lab):
